@@ -33,12 +33,12 @@ EXHAUSTIVE = {'quick': False, 'thorough': True}
 SIZES = {'quick': dict(datasets=2, kill_every=3, rows='sample', histories=12), 'thorough': dict(datasets=8, kill_every=1, rows='all', histories=12)}
 REQUIRED = {
     tier: {
-        'exception-faults-injected': 400,
+        'exception-faults-injected': 200,
         'kill-faults-injected': 60,
         'interrupt-faults-injected': 40,
         'row-faults-injected': 6,
         'faults-after-first-write': 200,
-        'reruns-after-fault-checked': 400,
+        'reruns-after-fault-checked': 300,
         'histories-compared': 12,
         'histories-with-failed-attempts': 6,
         'step:classify': 1, 'step:set-zeta-grid': 1, 'step:set-curvature': 1, 'step:rise': 1, 'step:recession': 1,
@@ -46,7 +46,7 @@ REQUIRED = {
     }
     for tier in ('quick', 'thorough')
 }
-MIN_NONTRIVIAL = {'quick': 200, 'thorough': 3000}
+MIN_NONTRIVIAL = {'quick': 150, 'thorough': 3000}
 
 STEPS = [
     ('classify', lambda c: ['classify', 'X', '-s', repr(c['sthr']), '-j', repr(c['jthr'])]),
